@@ -229,6 +229,10 @@ func init() {
 		th.m.renderSplit = true
 		return nil
 	}
+	I[rtPkg+"SplitConstDivision"] = func(th *Thread, fn *ssa.Function, args []Value) Value {
+		th.m.divSplit = int(th.m.asInt(args[0]))
+		return nil
+	}
 	I[rtPkg+"HashInjective"] = func(th *Thread, fn *ssa.Function, args []Value) Value {
 		th.m.hashInjective = true
 		return nil
